@@ -200,10 +200,15 @@ def observers(ctx, repo):
     w = repo.method("Observable", "watch")
 
     class Listener(Native):
-        """a callable with bound-method identity semantics: eq by key, a fresh object per 'access'"""
+        """a callable with bound-method identity semantics: eq by key, a fresh object per 'access';
+        `during` = what the listener does to the Observable while it is being notified"""
 
-        def __init__(self, key, log):
-            super().__init__(lambda a, k: log.append((key, tuple(a))), f"listener<{key}>")
+        def __init__(self, key, log, during=None):
+            def fire(a, k):
+                log.append((key, tuple(a)))
+                if during is not None:
+                    during()
+            super().__init__(fire, f"listener<{key}>")
             self.key = key
 
         def __eq__(self, o):
@@ -223,7 +228,15 @@ def observers(ctx, repo):
             op, arg = step
             try:
                 interp.steps = 0
-                if op in ("watch", "unwatch"):
+                if op == "watch" and isinstance(arg, tuple):
+                    # ("a", ("unwatch", "b")): listener a removes b (or everybody) while being notified
+                    key, (op2, arg2) = arg
+                    if op2 == "unwatch":
+                        act = lambda o=o, arg2=arg2: interp.call(repo.method("Observable", "unwatch"), o, [Listener(arg2, log)])  # noqa: E731
+                    else:
+                        act = lambda o=o: interp.call(repo.method("Observable", "unwatch_all"), o, [])  # noqa: E731
+                    interp.call(repo.method("Observable", "watch"), o, [Listener(key, log, act)])
+                elif op in ("watch", "unwatch"):
                     interp.call(repo.method("Observable", op), o, [Listener(arg, log)])
                 elif op == "unwatch_all":
                     interp.call(repo.method("Observable", "unwatch_all"), o, [])
@@ -249,6 +262,12 @@ def observers(ctx, repo):
          "unwatch_all leaves observers behind"),
         ("re-register-after-remove", [("watch", "a"), ("unwatch", "a"), ("watch", "a"), ("change", ev)], [("a", ev)],
          "an observer cannot be registered again after removal"),
+        ("removed-during-notification-not-called", [("watch", ("a", ("unwatch", "c"))), ("watch", "b"), ("watch", "c"), ("change", ev)], [("a", ev), ("b", ev)],
+         "an observer removed (by an earlier observer) while the notification is being delivered is still called for that update, or a live one is skipped"),
+        ("unwatch-all-during-notification", [("watch", ("a", ("unwatch_all", None))), ("watch", "b"), ("change", ev)], [("a", ev)],
+         "observers removed by unwatch_all during a notification are still called for that update"),
+        ("self-removal-does-not-skip-the-next", [("watch", ("a", ("unwatch", "a"))), ("watch", "b"), ("change", ev), ("change", ev)], [("a", ev), ("b", ev), ("b", ev)],
+         "an observer that removes itself while being notified makes the next observer miss that update (or is called again afterwards)"),
     ]
     for key, script, want, what in cases:
         got = run(script)
